@@ -562,6 +562,47 @@ def rule_handoff(ck, facts):
     ck.floor(R, "handoff_sites", n, 2)
 
 
+
+def rule_clock_width(ck, facts):
+    """the sample counter keeps its 64 bits on the way to `now` and to the scheduler"""
+    R = "C11.time"
+    NARROW = ("u32", "u16", "u8", "i32", "i16", "i8")
+    n = 0
+    for cr in ("mimium_audiodriver", "mimium_scheduler", roles.LANG):
+        if cr not in facts.files:
+            continue
+        for f in facts.crate(cr).fns:
+            if f.kind == "promoted" or "::test" in f.path:
+                continue
+            loads = [t for _, t in f.calls() if (callee(t) or "").split("::")[-1] == "load" and ("AtomicU64" in (callee(t) or "") or "Atomic::<u64>" in (callee(t) or "")) and t[6] is not None and not t[6][1]]
+            if not loads:
+                continue
+            taint = {t[6][0] for t in loads}
+            changed = True
+            while changed:
+                changed = False
+                for _, st in f.all_stmts():
+                    if st[KIND] != "a" or st[4][1] or st[4][0] in taint:
+                        continue
+                    rv = st[5]
+                    src = rv[1] if rv[0] == "use" else None
+                    if src is not None and src[0] in ("cp", "mv") and src[1][0] in taint:
+                        taint.add(st[4][0])
+                        changed = True
+            n += len(loads)
+            bad = None
+            for _, st in f.all_stmts():
+                if st[KIND] == "a" and st[5][0] == "cast" and st[5][2][0] in ("cp", "mv") and st[5][2][1][0] in taint and st[5][4] in NARROW:
+                    bad = st
+            owner = f.root.split("::", 1)[1] if "::" in f.root else f.root
+            key = "clock-width|%s|%s" % (cr.replace("mimium_", ""), owner)
+            if bad is None:
+                ck.ok(R, key)
+            else:
+                ck.bad(R, key, "%s narrows the 64-bit sample counter to %s before handing it on: after 2^32 samples (about a day at 48 kHz) the program's `now` starts again from 0 while the scheduler's own clock keeps counting, so every `f@(now + d)` is computed in the past (the VM worker aborts with `Scheduled time .. must be in the future`; WASM reads the full counter)" % (f.short, bad[5][4]), f.where(bad))
+    ck.floor(R, "sample_counter_reads", n, 3)
+
+
 def run(ck, facts, tier):
     ck.floor("C11.anchor", "scheduler_bodies", len(facts.crate(SCHED).fns), 25)
     rule_handoff(ck, facts)
@@ -571,6 +612,11 @@ def run(ck, facts, tier):
     rule_guards(ck, facts)
     rule_protocol(ck, facts)
     rule_driver_clock(ck, facts)
+    rule_clock_width(ck, facts)
     rule_drain(ck, facts)
     rule_closure_lifetime(ck, facts)
+    # a closure handed to `@` is an argument of a call: the task's run ends with a release that the call-time retain pays for
+    from . import c12 as _c12
+
+    _c12.rule_guard_set(ck, facts)
     ck.not_decided("exactly-once execution over histories, order among tasks due at the same sample, lifetime of scheduled closures")
